@@ -140,6 +140,8 @@ pub enum AcceptPolicy {
     /// accept exactly n streams then stop
     Count(u8),
     Never,
+    /// an application that is busy at first: nothing is accepted until Wake(n) fires, then everything
+    AfterWake(u8),
 }
 
 #[derive(Clone, Debug, Hash, PartialEq, Eq, Serialize, Deserialize)]
